@@ -135,7 +135,7 @@ def utf8Total (w : List Nat) : Nat := (w.map utf8Len).foldl (· + ·) 0
 
 -- @handler scan handleScan
 /-- `scan <k> <peek> <grammar> <modes> <text>` → tokens delivered by the model of `TokenStream` over
-    the spec tokenizer (faithful to scnr2 0.5.2: `scnr2Text`): `type:start:end:s|c,…`. The grammar
+    the spec tokenizer (faithful to scnr2 0.5.2: `scnr2Text`, `scnr2Modes`): `type:start:end:s|c,…`. The grammar
     word is for the implementation only. -/
 def handleScan : List String → Option String
   | [k, peek, _, m, w] => do
@@ -143,7 +143,7 @@ def handleScan : List String → Option String
     let peek ← Proto.parseBool peek
     let m ← parseScanModes m
     let w ← Proto.parseNats w
-    match tokenizeSpec m (scnr2Text w) with
+    match tokenizeSpec (scnr2Modes m) (scnr2Text w) with
     | none => some "fuel-exhausted"
     | some ts =>
       let lt := toLToks m w ts
